@@ -57,17 +57,17 @@ def Entry.key (e : Entry) : List Nat := match e.ver with
 /-- descending by precedence -/
 def geEntry (a b : Entry) : Bool := decide (b.key ≤ a.key)
 
-/-- `loadIndex` for the versions of one chart: invalid entries are dropped, null entries are
-*kept* (the loop only `continue`s), then `SortEntries`: `Less` dereferences every element it
-compares, so a null among two or more entries is a nil dereference. -/
+/-- the entries `loadIndex` keeps: null entries and invalid entries are removed -/
+def keptEntries (raw : List (Option Entry)) : List Entry :=
+  raw.filterMap fun o => match o with
+    | none => none
+    | some e => if e.valid then some e else none
+
+/-- `loadIndex` for the versions of one chart: null and invalid entries are dropped, then
+`SortEntries`.  (On the pinned tree a null entry was announced as skipped but left in the slice,
+and `Less` dereferenced it: repaired by `fix: drop empty entries when loading a repository index`.) -/
 def loadEntries (raw : List (Option Entry)) : Res (List (Option Entry)) :=
-  let kept := raw.filter fun o => match o with
-    | none => true
-    | some e => e.valid
-  if kept.any Option.isNone then
-    (if kept.length ≥ 2 then .panic else .ok kept)
-  else
-    .ok ((kept.filterMap id).mergeSort geEntry |>.map some)
+  .ok (((keptEntries raw).mergeSort geEntry).map some)
 
 /-- first entry satisfying `p`; a null entry met before is a nil dereference -/
 def firstMatch (p : Entry → Bool) : List (Option Entry) → Res (Option Entry)
